@@ -5,6 +5,8 @@ PROPS["C14"] = {
     "groups": [
         {"pkg": "aggregator", "hdir": "aggregator", "specs": [
             spec("C14/params/aggregation/regex", "VerifC14AggParams", {"regex": "^a"}, allow_no_assert=True),
+            spec("C14/traffic/aggregation/sum", "VerifC14AggTraffic", {"fun": "sum"}, allow_no_assert=True),
+            spec("C14/traffic/aggregation/percentiles", "VerifC14AggTraffic", {"fun": "percentiles"}, allow_no_assert=True, tier="thorough"),
             spec("C14/params/aggregation/noregex", "VerifC14AggParams", {"regex": ""}, allow_no_assert=True, allow_no_ok=True)]},
         {"pkg": "destination", "hdir": "destination", "no_native": True, "specs": [spec("C14/params/destination", "VerifC14DestParams", allow_no_assert=True)]},
         {"pkg": "route", "hdir": "route", "specs": [spec("C14/params/hashring-emptied", "VerifC14HashRingEmptied", allow_no_assert=True)]},
